@@ -175,7 +175,8 @@ defvjp(anp.sinh, lambda ans, x: lambda g: g * anp.cosh(x))
 defvjp(anp.cosh, lambda ans, x: lambda g: g * anp.sinh(x))
 defvjp(anp.tanh, lambda ans, x: lambda g: g / anp.cosh(x) ** 2)
 defvjp(anp.arcsinh, lambda ans, x: lambda g: g / anp.sqrt(x**2 + 1))
-defvjp(anp.arccosh, lambda ans, x: lambda g: g / anp.sqrt(x**2 - 1))
+# (written with two square roots so that it is the derivative of the principal branch for complex x with negative real part too)
+defvjp(anp.arccosh, lambda ans, x: lambda g: g / (anp.sqrt(x - 1) * anp.sqrt(x + 1)))
 defvjp(anp.arctanh, lambda ans, x: lambda g: g / (1 - x**2))
 defvjp(anp.rad2deg, lambda ans, x: lambda g: g / anp.pi * 180.0)
 defvjp(anp.degrees, lambda ans, x: lambda g: g / anp.pi * 180.0)
